@@ -693,7 +693,7 @@ func main() {
 	})
 
 	// multi-polygons mixing polygons that cross the box with polygons wholly inside it (with holes)
-	r.Explore("multipolygon-inside-members", "multi-polygons of 1..2 polygons crossing the general-position box (one optionally with a hole far outside the box and / or a hole the box cuts), a polygon wholly inside it with 0..2 holes and optionally a polygon far from the box, every order of the members, both orientations: region, and the inside polygon keeps exactly its own holes", mc.Opts{MaxDev: -1}, func(c *mc.Ctx) {
+	r.Explore("multipolygon-inside-members", "multi-polygons of 1..2 polygons crossing the general-position box (one optionally with a hole far outside the box and / or a hole the box cuts), a polygon wholly inside it with 0..2 holes, optionally a second one without holes, and optionally a polygon far from the box, every order of the members, both orientations: region, and the inside polygon keeps exactly its own holes", mc.Opts{MaxDev: -1}, func(c *mc.Ctx) {
 		o := orb.CCW
 		if c.Bool() {
 			o = orb.CW
@@ -734,6 +734,13 @@ func main() {
 			a = append(a, wind(cutHole, o != orb.CCW))
 		}
 		members := []orb.Polygon{a, in}
+		// a second polygon wholly inside the box, without holes: the holes of the first one stay its own wherever the
+		// two stand in the list
+		inner2 := orb.Ring{{1.5, 2.3}, {2.0, 2.3}, {2.0, 2.5}, {1.5, 2.5}, {1.5, 2.3}}
+		withIn2 := c.Bool()
+		if withIn2 {
+			members = append(members, orb.Polygon{wind(inner2, o == orb.CCW)})
+		}
 		two := c.Bool()
 		if two {
 			members = append(members, orb.Polygon{wind(crossB, o == orb.CCW)})
@@ -742,7 +749,7 @@ func main() {
 			members = append(members, orb.Polygon{wind(far, o == orb.CCW)})
 		}
 		// every order of the members
-		idx := []int{0, 1, 2, 3}[:len(members)]
+		idx := []int{0, 1, 2, 3, 4}[:len(members)]
 		var mp orb.MultiPolygon
 		for len(idx) > 0 {
 			k := c.Choose(len(idx))
@@ -755,7 +762,7 @@ func main() {
 			if withCut && inFloat(cutHole, q.f) {
 				return false
 			}
-			if inFloat(crossA, q.f) || (two && inFloat(crossB, q.f)) {
+			if inFloat(crossA, q.f) || (two && inFloat(crossB, q.f)) || (withIn2 && inFloat(inner2, q.f)) {
 				return true
 			}
 			if !inFloat(inner, q.f) {
@@ -783,6 +790,17 @@ func main() {
 		}
 		if !found {
 			c.Failf("multi:inside-member-lost", "the polygon wholly inside the box is missing from the result | %s", desc)
+		}
+		if withIn2 {
+			n2 := 0
+			for _, gp := range got {
+				if len(gp) > 0 && len(gp[0]) == len(inner2) && math.Abs(math.Abs(shoelace(gp[0]))-math.Abs(shoelace(inner2))) < 1e-12 && inFloat(gp[0], orb.Point{1.75, 2.4}) {
+					n2++
+				}
+			}
+			if n2 != 1 {
+				c.Failf("multi:inside-member-lost", "the second polygon wholly inside the box appears %d times in the result | %s", n2, desc)
+			}
 		}
 		if len(holesIn) > 0 {
 			c.NonTrivial()
